@@ -29,6 +29,7 @@ entry order; a header with another version digit must be refused.
 (h) state table: the RebaseState1 methods are evaluated the same way with the transport modelled as a dictionary
 (put_bytes/get_bytes, NoSuchFile when absent): has_plan/read_plan see what write_plan stored, remove_plan empties it,
 read_active_revid returns what write_active_revid stored (None included), and the two use two distinct files.
+(i) rebase() iterates graph.iter_topo_order(...) of the plan keys when it calls the rewriter (third round).
 Does not decide: plan contents and ordering beyond (e) (graph values) — not applicable to static analysis.
 """
 
@@ -219,7 +220,12 @@ def run(ctx):
         return NotImplemented
 
     its = Interp(call_hook=_hook, name_hook=_names, loop_bound=256)
-    st = Obj("state", transport=Obj("transport"), wt=Obj("wt", branch=Obj("branch")))
+    # the state object is built by evaluating RebaseState1.__init__ itself, so attributes it initialises exist
+    st = Obj("state")
+    try:
+        its.call(repo.func(RB, "RebaseState1.__init__"), _pos(repo.func(RB, "RebaseState1.__init__"), st, Obj("wt", _transport=Obj("transport"), branch=Obj("branch"))))
+    except (Raised, Unsupported) as ex:
+        raise AnalysisError(f"{RB}:RebaseState1.__init__ not evaluable by the abstract interpreter ({ex})")
     wst = f"{RB}:RebaseState1"
 
     def _m(meth, *vals):
@@ -265,7 +271,19 @@ def run(ctx):
         ctx.fact(3 * 12 * 2 + 9)
         ctx.check("state-roundtrip-table", wst, not sbad, "has_plan/read_plan return what write_plan stored (36 plans), remove_plan empties it, read_active_revid returns what write_active_revid stored, None included", construct=sbad[0][:200] if sbad else "", message=f"the saved rebase state does not load back: {sbad[0] if sbad else ''} — `rebase-continue` after an interruption works on a different plan or refuses a valid one")
 
+    # ---- (i) the plan is replayed parents first -------------------------------------------------------------------------
+    frb = repo.func(RB, "rebase")
+    wrb = f"{RB}:rebase"
+    rw = [a.arg for a in frb.args.args][-1]
+    loops_rb = [l_ for l_ in walk_own(frb) if isinstance(l_, ast.For) and any(isinstance(c.func, ast.Name) and c.func.id == rw for c in calls_in(l_))]
+    ctx.require(len(loops_rb) == 1, f"{wrb}: the loop that calls the revision rewriter was not found")
+    it_names = {n.id for n in ast.walk(loops_rb[0].iter) if isinstance(n, ast.Name)}
+    srcs_rb = [loops_rb[0].iter] + [a.value for a in walk_own(frb) if isinstance(a, ast.Assign) and any(norm(t) in it_names for t in a.targets)]
+    topo = any(call_attr(c) == "iter_topo_order" for e in srcs_rb for c in calls_in(ast.Expr(value=e)))
+    ctx.check("replay-parents-first", wrb, topo, "the revisions are rewritten in graph.iter_topo_order of the plan's keys", construct=norm(loops_rb[0].iter), message="rebase() replays the plan in the order of the mapping instead of a topological order of the old revisions: generate_transpose_plan updates merge children in place, so its plans are not parents-first — a revision is rewritten before the rewritten copy of one of its new parents exists (the commit fails or gets the wrong parent)")
+
 MUTANTS = [
+    Mutant("rebase replays in plan order", RB, "    todo = list(graph.iter_topo_order(replace_map.keys()))\n", "    todo = list(replace_map)\n", expect="replay-parents-first"),
     Mutant("stored plan is refused as missing", RB, '        if text == b"":\n            raise NoSuchFile(REBASE_PLAN_FILENAME)\n', '        if text != b"":\n            raise NoSuchFile(REBASE_PLAN_FILENAME)\n', expect="state-roundtrip-table"),
     Mutant("active revision: null is returned as an id", RB, '            if text == NULL_REVISION:\n                return None\n            return text\n', '            return text\n', expect="state-roundtrip-table"),
     Mutant("plan reader keeps only blank lines", RB, '        if l == b"":\n            # Skip empty lines\n            continue\n', '        if l != b"":\n            # Skip empty lines\n            continue\n', expect="plan-roundtrip-table"),
